@@ -356,7 +356,17 @@ def install_fs(ex, fs):
             return False
         return t in fs.nodes
     add(r'(?:std::path::)?Path::exists|(?:std::path::)?Path::try_exists', path_exists)
-    add(r'(?:std::path::)?Path::is_dir', lambda ex, c, a: (lambda t: t in fs.nodes and fs.nodes[t].kind == 'dir')(fs.resolve(P(a[0]), True)))
+    def path_kind(kind, follow):
+        def f(ex, c, a):
+            try:
+                t = fs.resolve(P(a[0]), follow)
+            except IoErr:
+                return False
+            return t in fs.nodes and fs.nodes[t].kind == kind
+        return f
+    add(r'(?:std::path::)?Path::is_dir', path_kind('dir', True))           # stat: follows
+    add(r'(?:std::path::)?Path::is_file', path_kind('file', True))
+    add(r'(?:std::path::)?Path::is_symlink', path_kind('symlink', False))  # lstat
     add(r'(?:std::fs::)?DirEntry::file_name', lambda ex, c, a: deref(a[0]).name if isinstance(deref(a[0]), StdDirEntry) else NotImplemented)
     add(r'(?:std::fs::)?metadata::<.*>', wrap(metadata))
     add(r'(?:std::fs::)?Metadata::file_type', lambda ex, c, a: deref(a[0]))
@@ -571,6 +581,9 @@ def setup_fs(ex, dest_state='absent', chown_permitted=True):
         fs.mkdirs(DEST)
         fs.nodes[DEST + '/existing'] = FsNode('symlink', target='../out/sentinel', owner=('pre', 'pre'), mtime=('pre', 'pre'))
         fs.nodes[DEST + '/dangling'] = FsNode('symlink', target='nowhere', owner=('pre', 'pre'), mtime=('pre', 'pre'))
+        # ... a dangling one named like an archived file, whose target's directory exists outside (creating the file THROUGH it
+        # would create out/absent)
+        fs.nodes[DEST + '/n'] = FsNode('symlink', target='../out/absent', owner=('pre', 'pre'), mtime=('pre', 'pre'))
         # ... and one named like an archived directory, pointing at a directory outside
         fs.nodes[DEST + '/p'] = FsNode('symlink', target='../out', owner=('pre', 'pre'), mtime=('pre', 'pre'))
     install_fs(ex, fs)
